@@ -207,6 +207,9 @@ pub enum SStep {
     Del(&'static str),
     PDel,
     Adv(u64),
+    /// a burst: the core processes three writes (the same key twice, another key in between) before
+    /// the subscription's forwarding task runs, so its channel holds several events at once
+    Burst(&'static str, &'static str),
 }
 
 pub struct AggSessionScenario {
@@ -278,6 +281,21 @@ impl Scenario for AggSessionScenario {
                         tokio::time::advance(Duration::from_millis(*ms)).await;
                         settle().await;
                     }
+                    SStep::Burst(k, other) => {
+                        use worterbuch_common::WbApi;
+                        n += 3;
+                        let api = world.api.clone();
+                        // all three requests are in the core's queue before it runs
+                        let (a, b, c) = tokio::join!(
+                            api.set(k.to_string(), json!(n - 2), cid(1)),
+                            api.set(other.to_string(), json!(n - 1), cid(1)),
+                            api.set(k.to_string(), json!(n), cid(1)),
+                        );
+                        if a.is_err() || b.is_err() || c.is_err() {
+                            panic!("MACHINERY: burst writes refused");
+                        }
+                        settle().await;
+                    }
                 }
                 collect(&mut world, &mut per_tid, &mut first_of, &mut acks);
             }
@@ -316,6 +334,7 @@ pub fn session_scenario(live_only: bool) -> AggSessionScenario {
             SStep::PDel,
             SStep::Adv(INTERVAL_MS / 2),
             SStep::Adv(INTERVAL_MS),
+            SStep::Burst("p/a", "p/b"),
         ],
         live_only,
     }
